@@ -15,6 +15,7 @@ import (
 	orderPeerMgr "github.com/meshplus/bitxhub-core/peer-mgr"
 	"github.com/meshplus/bitxhub-model/pb"
 	"github.com/meshplus/bitxhub/pkg/order/etcdraft"
+	raftproto "github.com/meshplus/bitxhub/pkg/order/etcdraft/proto"
 	"pgregory.net/rapid"
 
 	"verifharness/sim"
@@ -90,9 +91,25 @@ func (p *raftPeerMgr) deliver(to uint64, m *pb.Message) error {
 	return nil
 }
 
+// isTxBroadcast reports whether a consensus message carries broadcast transactions.
+func isTxBroadcast(m *pb.Message) bool {
+	rm := &raftproto.RaftMessage{}
+	if err := rm.Unmarshal(m.Data); err != nil {
+		return false
+	}
+	return rm.Type == raftproto.RaftMessage_BROADCAST_TX
+}
+
 func (p *raftPeerMgr) AsyncSend(to orderPeerMgr.KeyType, m *pb.Message) error {
 	id := to.(uint64)
-	switch p.action() {
+	act := p.action()
+	if act == 3 && isTxBroadcast(m) && sim.KFOpen("KF-C20-late-tx-broadcast") {
+		// known finding: a transaction broadcast that arrives after its block was committed is admitted by a
+		// follower that never held it and proposed again later; excluded by construction (delivered in time), counted
+		sim.StatsFor("C20").KnownFinding("KF-C20-late-tx-broadcast", "delayed BROADCAST_TX")
+		act = 0
+	}
+	switch act {
 	case 1:
 		return nil // lost on the wire
 	case 2:
@@ -261,6 +278,12 @@ func c20RaftProperty(t *rapid.T) {
 	defer removeAll(base)
 	net := &raftNet{nodes: map[uint64]*raftReplica{}}
 	snap := rapid.SampledFrom([]int{3, 5, 20}).Draw(t, "snapshotCount")
+	if sim.KFOpen("KF-C20-snapshot-ahead-of-executor") {
+		// known finding: a local raft snapshot can cover blocks the executor has not executed yet; after a crash
+		// they are never delivered again. Excluded by construction with the shipped snapshot_count, counted.
+		sim.StatsFor("C20").KnownFinding("KF-C20-snapshot-ahead-of-executor", fmt.Sprintf("snapshot_count %d replaced by 1000", snap))
+		snap = 1000
+	}
 	batchSize := rapid.IntRange(1, 3).Draw(t, "batchSize")
 	if size == 3 {
 		net.script = rapid.SliceOfN(rapid.SampledFrom([]byte{0, 0, 0, 0, 0, 0, 1, 2, 3}), 0, 60).Draw(t, "faultScript")
@@ -327,11 +350,11 @@ func c20RaftProperty(t *rapid.T) {
 				next[a]++
 			}
 		}
-		ops = append(ops, fmt.Sprintf("round %d: %d transactions via replica %d", rd, cnt, entry.id))
+		ops = append(ops, fmt.Sprintf("round %d: %d transactions via replica %d (next nonces %v) @%dms", rd, cnt, entry.id, next, time.Since(processStart).Milliseconds()))
 		time.Sleep(time.Duration(rapid.IntRange(60, 250).Draw(t, "waitMs")) * time.Millisecond)
 		if rapid.IntRange(0, 2).Draw(t, "crash") == 0 {
 			victim := reps[rapid.IntRange(0, size-1).Draw(t, "victim")]
-			ops = append(ops, fmt.Sprintf("crash replica %d at executed height %d, restart with applied=%d", victim.id, victim.stub.chainMeta().Height, victim.stub.chainMeta().Height))
+			ops = append(ops, fmt.Sprintf("crash replica %d at executed height %d, restart with applied=%d @%dms", victim.id, victim.stub.chainMeta().Height, victim.stub.chainMeta().Height, time.Since(processStart).Milliseconds()))
 			victim.crash()
 			time.Sleep(time.Duration(rapid.IntRange(0, 150).Draw(t, "downMs")) * time.Millisecond)
 			victim.start(t, vp)
